@@ -135,13 +135,14 @@ func startServer() (*pipeListener, error) {
 }
 
 type e2eCase struct {
-	Msg      msgspec.Spec
-	Key      int      // index into e2eKeys
-	Variant  string   // good, edge, late, early, tampered, wrongsecret, unknownkey, casekey, ancestorkey, rootkey, twotsig, none, libsigned
-	Fudge    uint16   // >= 300
-	FlipBit  int      // tampered: bit position in the message body (reduced modulo its length)
-	Follow   []string // variants of further requests sent on the same connection (good, edge, late, early, wrongsecret)
-	UpperAlg bool
+	Msg        msgspec.Spec
+	Key        int      // index into e2eKeys
+	Variant    string   // good, edge, late, early, tampered, wrongsecret, unknownkey, casekey, ancestorkey, rootkey, twotsig, unsignederr, none, libsigned
+	Fudge      uint16   // >= 300
+	FlipBit    int      // tampered: bit position in the message body (reduced modulo its length)
+	Follow     []string // variants of further requests sent on the same connection (good, edge, late, early, wrongsecret)
+	UpperAlg   bool
+	BadTimeLib bool // set by the generator only: the signed BADTIME reply (RCODE NOTAUTH) must verify with the library's TsigVerify too (not while the finding tsig-rcode-notauth is live)
 }
 
 // session is one client connection to the in-memory server; several requests may follow each
@@ -416,6 +417,13 @@ func oneRequest(sess *session, c e2eCase, variant string, step int) error {
 			if rv.Tsig.Error != 18 || len(rv.Tsig.OtherData) != 6 {
 				return pbt.Errf("BADTIME reply carries TSIG error %d and %d octets of other data", rv.Tsig.Error, len(rv.Tsig.OtherData))
 			}
+			if c.BadTimeLib {
+				// (not while the finding tsig-rcode-notauth is live: TsigVerify gives ErrAuth for every NOTAUTH message)
+				if lerr := libVerify(resp, key.secret, reqMAC, false, uint64(time.Now().Unix())); lerr != nil {
+					return pbt.Errf("TsigVerify (client side) of the signed BADTIME reply, which the reference accepts against the MAC of the request, failed: %v", lerr)
+				}
+				pbt.Class("badtime-reply-verified-by-the-library")
+			}
 			pbt.Class("badtime-reply-verified")
 		}
 		return nil
@@ -461,7 +469,7 @@ func genE2E(t *rapid.T) e2eCase {
 		c.Msg.Question = []msgspec.Q{{Name: 0, Type: 1, Class: 1}}
 	}
 	c.Key = rapid.IntRange(0, len(e2eKeys)-1).Draw(t, "key")
-	c.Variant = rapid.SampledFrom([]string{"good", "good", "edge", "late", "early", "tampered", "tampered", "wrongsecret", "unknownkey", "unknownkey-emptysecret", "unknownkey-namesecret", "casekey", "none", "libsigned", "multi", "multi", "ancestorkey", "rootkey", "twotsig"}).Draw(t, "variant")
+	c.Variant = rapid.SampledFrom([]string{"good", "good", "edge", "late", "early", "tampered", "tampered", "wrongsecret", "unknownkey", "unknownkey-emptysecret", "unknownkey-namesecret", "casekey", "none", "libsigned", "multi", "multi", "ancestorkey", "rootkey", "twotsig", "unsignederr"}).Draw(t, "variant")
 	if c.Variant == "twotsig" && pbt.Known(findNotLast) {
 		pbt.Excluded(findNotLast)
 		c.Variant = "good"
@@ -469,8 +477,12 @@ func genE2E(t *rapid.T) e2eCase {
 	c.Fudge = rapid.OneOf(rapid.Just(uint16(300)), rapid.Uint16Range(300, 65535)).Draw(t, "fudge")
 	c.FlipBit = rapid.IntRange(0, 1<<20).Draw(t, "flipbit")
 	c.UpperAlg = rapid.IntRange(0, 3).Draw(t, "upperalg") == 0
+	c.BadTimeLib = !pbt.Known(findNotAuth)
+	if !c.BadTimeLib && (c.Variant == "late" || c.Variant == "early") {
+		pbt.Excluded(findNotAuth)
+	}
 	if rapid.IntRange(0, 2).Draw(t, "reuse") == 0 {
-		c.Follow = rapid.SliceOfN(rapid.SampledFrom([]string{"good", "good", "edge", "late", "early", "wrongsecret"}), 1, 3).Draw(t, "follow")
+		c.Follow = rapid.SliceOfN(rapid.SampledFrom([]string{"good", "good", "edge", "late", "early", "wrongsecret", "unsignederr"}), 1, 3).Draw(t, "follow")
 	}
 	return c
 }
